@@ -477,6 +477,110 @@ func checkValidate(c *Ctx, v *ssa.Function, rule string) {
 			lastNe = append(lastNe, ne...)
 		}
 	})
+	// the two tests written as data: a local table of {want, got} pairs compared in one loop
+	reg0.AllInstrs(func(in ssa.Instruction) {
+		b, ok := in.(*ssa.BinOp)
+		if !ok || (b.Op != token.NEQ && b.Op != token.EQL) {
+			return
+		}
+		fx, bx := loadedField(stripNum(b.X))
+		fy, by := loadedField(stripNum(b.Y))
+		if fx == nil || fy == nil || fx == fy {
+			return
+		}
+		// both are fields of one element (a copy of it) of a local array
+		elemArr := func(base ssa.Value) *ssa.Alloc {
+			base = stripConv(base)
+			if al, ok := base.(*ssa.Alloc); ok {
+				if cv := cellValue(al); cv != nil {
+					base = stripConv(cv)
+				}
+			}
+			if u, ok := base.(*ssa.UnOp); ok && u.Op == token.MUL {
+				base = u.X
+			}
+			// t[i] on the array value (a copy of the whole table is ranged over) or on its address
+			if ix, ok := base.(*ssa.Index); ok && isInduction(ix.Index) {
+				if u, ok := stripConv(ix.X).(*ssa.UnOp); ok && u.Op == token.MUL {
+					arr, _ := u.X.(*ssa.Alloc)
+					return arr
+				}
+				return nil
+			}
+			ia, ok := base.(*ssa.IndexAddr)
+			if !ok || !isInduction(ia.Index) {
+				return nil
+			}
+			arr, _ := stripConv(ia.X).(*ssa.Alloc)
+			return arr
+		}
+		ax, ay := elemArr(bx), elemArr(by)
+		if ax == nil || ax != ay {
+			return
+		}
+		// what each row of the table holds in the two fields
+		rows := map[int64]map[*types.Var]ssa.Value{}
+		for _, ref := range *ax.Referrers() {
+			ia, ok := ref.(*ssa.IndexAddr)
+			if !ok {
+				continue
+			}
+			k, isC := constInt(ia.Index)
+			if !isC {
+				continue
+			}
+			record := func(from ssa.Value) {
+				for _, r2 := range *from.Referrers() {
+					fa, ok := r2.(*ssa.FieldAddr)
+					if !ok {
+						continue
+					}
+					ff, _ := fieldOf(fa)
+					for _, r3 := range *fa.Referrers() {
+						if st, ok := r3.(*ssa.Store); ok && st.Addr == ssa.Value(fa) {
+							if rows[k] == nil {
+								rows[k] = map[*types.Var]ssa.Value{}
+							}
+							rows[k][ff] = st.Val
+						}
+					}
+				}
+			}
+			record(ia)
+			// the row built in a local of its own and stored whole: t[k] = row
+			for _, r2 := range *ia.Referrers() {
+				if st, ok := r2.(*ssa.Store); ok && st.Addr == ssa.Value(ia) {
+					if u, ok := stripConv(st.Val).(*ssa.UnOp); ok && u.Op == token.MUL {
+						if sal, ok := u.X.(*ssa.Alloc); ok {
+							record(sal)
+						}
+					}
+				}
+			}
+		}
+		t, f := boolEdges(b)
+		ne := t
+		if b.Op == token.EQL {
+			ne = f
+		}
+		isStart := func(e ssa.Value) bool { return stripNum(reg0.Resolve(stripNum(e))) == ssa.Value(pStart) }
+		isLastWant := func(e ssa.Value) bool {
+			want := aff0.Of(pStart).add(aff0.Of(pLimit)).sub(konst(1))
+			return linEq(aff0.Of(e), want)
+		}
+		for _, row := range rows {
+			vx, vy := row[fx], row[fy]
+			if vx == nil || vy == nil {
+				continue
+			}
+			if (numOfElem(stripNum(vx), false) && isStart(vy)) || (numOfElem(stripNum(vy), false) && isStart(vx)) {
+				firstNe = append(firstNe, ne...)
+			}
+			if (numOfElem(stripNum(vx), true) && isLastWant(vy)) || (numOfElem(stripNum(vy), true) && isLastWant(vx)) {
+				lastNe = append(lastNe, ne...)
+			}
+		}
+	})
 	c.Check(rule, "validate/first==start", v.Pos(), nonNilRet(firstNe), "first block number != start is an error")
 	c.Check(rule, "validate/last==start+limit-1", v.Pos(), nonNilRet(lastNe), "last block number != start+limit-1 is an error")
 	// linkage: for every k in [0, len-2], blocks[k+1].Header.Parent is compared
@@ -506,6 +610,21 @@ func checkValidate(c *Ctx, v *ssa.Function, rule string) {
 				for _, e := range es {
 					if reg0.Dominates(terminator(e.From), r) {
 						dom = true
+					}
+					// the test sits in a loop over a table of checks: the loop is passed on the way to the return
+					// (its header dominates the return) and the test is part of every iteration
+					if !dom && e.From.Parent() == r.Parent() {
+						for _, h := range r.Parent().Blocks {
+							if len(h.Preds) < 2 || !h.Dominates(e.From) || !h.Dominates(r.Block()) {
+								continue
+							}
+							back, _ := reach(Site{e.From, len(e.From.Instrs) - 1}, func(x ssa.Instruction) bool { return x.Block() == h }, nil)
+							// no way round the test inside the loop body
+							skip, _ := reach(Site{h, len(h.Instrs) - 1}, func(x ssa.Instruction) bool { return x.Block() == h && x == h.Instrs[0] }, newCuts().addInstr(terminator(e.From)))
+							if back && !skip {
+								dom = true
+							}
+						}
 					}
 				}
 				if !dom {
@@ -563,7 +682,14 @@ func linkageEveryPair(c *Ctx, sp linkageSpec) (bool, string) {
 				if lf.Val == ssa.Value(ph) {
 					return nil, false // an iteration may keep the old pointer: pairs would not be adjacent
 				}
-				ia, isIA := stripConv(lf.Val).(*ssa.IndexAddr)
+				lv := stripConv(lf.Val)
+				// a pointer to the element, or to the element's Header (prev := &blocks[0].Header)
+				if fa, isFA := lv.(*ssa.FieldAddr); isFA {
+					if ff, _ := fieldOf(fa); ff == fHeader {
+						lv = stripConv(fa.X)
+					}
+				}
+				ia, isIA := lv.(*ssa.IndexAddr)
 				if !isIA || !sp.isBlocks(reg.Resolve(stripConv(ia.X))) {
 					return nil, false
 				}
@@ -639,7 +765,7 @@ func linkageEveryPair(c *Ctx, sp linkageSpec) (bool, string) {
 				if recv, ok := valueMethodArg(a, "eth", "Block", "Hash"); ok {
 					root, chain = recv, []*types.Var{fHeader, fHash}
 				}
-				if chainIs(chain, fHeader, fHash) {
+				if chainIs(chain, fHeader, fHash) || chainIs(chain, fHash) {
 					if wk, ok := movingPtr(root); ok {
 						hashWalk = wk
 					}
